@@ -34,8 +34,14 @@ def cases(tier, seed):
         else:
             nI, nX = rng.choice([(5, 5), (9, 7), (8, 8), (4, 17), (13, 3), (6, 10), (17, 18)])
             kw = {}
+            gap = False
             if geom == 'irregular':
                 kw = {'holes': conv.pick_holes(rng, nI, nX), 'il': [rng.choice([1, 5]), rng.choice([1, 2])], 'xl': [rng.choice([1, 20]), rng.choice([1, 3])]}
+                if i % 12 == 3 and nI >= 5:
+                    # a whole inline (the second one) was never acquired: the numbering has a gap right after the first line
+                    gh = gap_holes(rng, nI, nX)
+                    if gh:
+                        kw['holes'], gap = gh, True
             src = conv.src_desc(rng, geom, (nI, nX, rng.choice([3, 10, 31])), hdr={'seed': 1, 'nfields': 1, 'inside': True},
                                 valkind=rng.choice(['smooth', 'noise', 'zeros', 'const', 'neg']), **kw)
             settings = rng.sample(set3, 3)
@@ -47,7 +53,7 @@ def cases(tier, seed):
             src['fmt'] = [3, 2, 8][(i // 5) % 3]          # integer sample formats: the hash is still over the float32 samples
         out.append({'id': '%s:%d' % (geom, i), 'src': src, 'settings': [[r, list(b)] for r, b in settings],
                     'detection': ['heuristic', 'strip', 'thorough', 'exhaustive'][(i // 6) % 4] if geom in ('3d', '2d') else 'heuristic',
-                    'where': ['first', 'last', 'partial', 'random'][i % 4], 'cost': 2})
+                    'where': ['first', 'last', 'partial', 'random'][i % 4], 'cost': 2, 'gap': geom == 'irregular' and gap})
     # alignment family: every pattern of {axis is / is not a multiple of the resolved blockshape} relative to the first setting,
     # every detection mode, every route (the padded buffer equals the real extent on the aligned axes)
     m = 0
@@ -90,6 +96,17 @@ def cases(tier, seed):
         out.append({'id': 'zgy:%d' % j, 'src': conv.zgy_desc(rng, (nI, nX, rng.choice([3, 10, 31, 64])), valkind=rng.choice(['smooth', 'noise', 'ramp'])), 'settings': [[r, list(b)] for r, b in rng.sample(set3, 3)],
                     'where': ['first', 'last', 'partial', 'random'][j % 4], 'cost': 3})
     return out
+
+
+def gap_holes(rng, nI, nX):
+    for _ in range(50):
+        holes = set(conv.pick_holes(rng, nI, nX)) | {nX + x for x in range(nX)}
+        present = np.ones((nI, nX), bool)
+        present.reshape(-1)[list(holes)] = False
+        if present.any(axis=1).sum() != nI - 1 or not present.any(axis=0).all() or present.sum() % present[0].sum() == 0:
+            continue
+        return sorted(holes)
+    return None
 
 
 def sha(traces):
@@ -188,9 +205,12 @@ def run_case(case, ctx):
         b = rng.randrange(a + 2, nI + 1)
         c = rng.randrange(0, nX - 2)
         d = rng.randrange(c + 2, nX + 1)
-        wantw = sha(src['data'][a:b, c:d].reshape(-1, nZ))
+        # (the window starts at ordinal 0 on one axis for one reader and on the other axis for the other reader)
         rate, bs = case['settings'][0]
         for iops in (False, True):
+            a, c = (0, max(c, 1)) if iops else (max(a, 1), 0)
+            b, d = max(b, a + 2), max(d, c + 2)
+            wantw = sha(src['data'][a:b, c:d].reshape(-1, nZ))
             out = sc.file('w-%s.sgz' % iops)
             conv.convert_segy(src['path'], out, rate, bs, reduce_iops=iops, detection=case.get('detection', 'heuristic'), window=(a, b, c, d))
             n += 1
@@ -248,6 +268,29 @@ def run_case(case, ctx):
             T2 = np.ascontiguousarray(T2.reshape(nX_, nI_, -1).transpose(1, 0, 2).reshape(nI_ * nX_, -1))
         if np.array_equal(T2.view(np.uint32), T.view(np.uint32)):
             return {'violations': bad, 'counters': {'conversions': n, 'perturbation_lost_in_ibm_rounding': 1}, 'strata': sorted(strata), 'key': case['id']}
+    if case.get('gap'):
+        # one perturbation in every line of the file (first setting, segyio route): no line's samples may be left out of the hash
+        import segyio
+        import shutil
+        rate0, bs0 = case['settings'][0]
+        h0 = got[(rate0, tuple(bs0), 'segyio')]
+        for li in sorted({i_ for i_, _ in src['positions']}):
+            tl = next(t_ for t_, (i_, _) in enumerate(src['positions']) if i_ == li)
+            pl = sc.file('pert-line.sgy')
+            shutil.copy(src['path'], pl)
+            tr = T[tl].copy()
+            tr[:1].view(np.uint32)[0] ^= np.uint32(1 << 20)
+            with segyio.open(pl, 'r+', strict=False, ignore_geometry=True) as f:
+                f.trace[tl] = tr
+            ol = sc.file('o-line.sgz')
+            conv.convert_segy(pl, ol, rate0, bs0, detection=case.get('detection', 'heuristic'))
+            n += 1
+            with SgzReader(ol) as r:
+                hl = r.get_source_data_hash()
+            if hl == h0:
+                bad.append({'sig': 'irregular:hash-unchanged-after-sample-perturbation', 'detail': 'first sample of trace %d (inline index %d of an axis with a missing line) changed: hash still %s' % (tl, li, hl)})
+                break
+        strata.add('irregular-missing-line')
     got2 = convert_all(src2, 'b')
     want2 = sha(T2)
     for k, h in got2.items():
@@ -262,7 +305,7 @@ def run_case(case, ctx):
 
 def finalize(tier, cases, results, counters, strata):
     reasons = []
-    need = ['sorting:1', 'converter-reused', 'fmt:1', 'fmt:5', 'fmt:2', 'fmt:3', 'fmt:8', 'geom:3d', 'geom:2d', 'geom:irregular', 'geom:numpy', 'geom:zgy', 'where:first', 'where:last', 'where:partial', 'where:random', 'windowed']
+    need = ['sorting:1', 'converter-reused', 'fmt:1', 'fmt:5', 'fmt:2', 'fmt:3', 'fmt:8', 'geom:3d', 'geom:2d', 'geom:irregular', 'geom:numpy', 'geom:zgy', 'where:first', 'where:last', 'where:partial', 'where:random', 'windowed', 'irregular-missing-line']
     need += ['detection:' + d for d in ('heuristic', 'strip', 'thorough', 'exhaustive')]
     need += ['aligned-axes:%s:%d' % (g, p) for g in ('3d', '2d') for p in range(8)]
     for s in need:
